@@ -22,6 +22,7 @@ F_TREMOTE = 'C24-type-remote-on-collection-input-asserts'
 F_TERN2 = 'C24-ternary-two-collection-refs'
 F_ARITY = 'C24-task-call-with-extra-arguments-crashes'
 F_IADER = 'C24-ia-derived-param-followed-by-param'
+F_IAKEY = 'C24-ia-user-make-key-fn'
 
 RE_TERN2 = re.compile(r'(?:<-|->)[^\n]*\?\s*[A-Za-z_]\w*\s*\([^()\n]*\)\s*:\s*[A-Za-z_]\w*\s*\(')
 RE_DECL = re.compile(r'^([A-Za-z_]\w*)\s*\(([^()\n]*)\)', re.M)
@@ -52,6 +53,8 @@ def attribute(t, r):
         return F_TERN2
     if out == 'accepted-not-compilable' and 'ia_derived' in t['feats'] and re.search(r'__\w+_(min|max)\W+undeclared', msg):
         return F_IADER
+    if out == 'accepted-not-compilable' and 'index-array' in t.get('args', []) and re.search(r'\[[^\]]*make_key_fn', t['text']) and re.search(r'__\w+_(min|max)\W+undeclared', msg):
+        return F_IAKEY
     if out == 'signal' and 'call_with_extra_args' in t['feats'] and ('Wrong number of arguments when calling' in diag or not diag.strip()):
         return F_ARITY
     return None
